@@ -17,9 +17,14 @@ NLines == Len(Rec)
 Outcomes == {"ok", "refused"}      \* the outcome classes of the specification
 Class(e) == IF e.res.panic THEN "panic" ELSE IF e.res.ok THEN "ok" ELSE "refused"
 
+\* a call that panics can never complete: besides C16 it contradicts the property that promises this call an outcome
+\* (a requester can withdraw, a due batch can be submitted, a reward is booked, a stake mints, fees can be withdrawn)
+Promised(m) == CASE m = "withdraw" -> {"C05", "C02"} [] m = "submit_batch" -> {"C06", "C04"} [] m = "receive_rewards" -> {"C11"}
+                 [] m = "liquid_stake" -> {"C04", "C03"} [] m = "fee_withdraw" -> {"C11"} [] m = "recover" -> {"C07"}
+                 [] m = "receive_unstaked_tokens" -> {"C06"} [] m = "liquid_unstake" -> {"C05"} [] OTHER -> {}
 Findings(l) ==
   LET e == Rec[l] IN
-  {[l |-> l, kind |-> "panic", m |-> e.call.m, atom |-> e.res.err, props |-> {"C16"}] : x \in IF Class(e) \in Outcomes THEN {} ELSE {1}}
+  {[l |-> l, kind |-> "panic", m |-> e.call.m, atom |-> e.res.err, props |-> {"C16"} \cup Promised(e.call.m)] : x \in IF Class(e) \in Outcomes THEN {} ELSE {1}}
   \cup {[l |-> l, kind |-> "panic", m |-> "query", atom |-> e.qpanic, props |-> {"C16"}] : x \in IF e.qpanic = "" THEN {} ELSE {1}}
 
 VARIABLES l, nfind
